@@ -143,6 +143,13 @@ def gen_case(ch):
         if ch.flip(1, 3, "fsorted"):
             freq = np.sort(freq)
         ffmt = ch.weighted([4, 1, 1], "freqfmt")  # ndarray, list, scalar
+        # the frequency vector is "1d array_like": any real dtype
+        fdt = ["float64", "float32", "int64", "float16"][ch.weighted([12, 2, 1, 1], "freq_dtype")]
+        if fdt == "int64":
+            freq = np.round(freq)
+        if fdt != "float64":
+            freq = freq.astype(fdt).astype(float)  # representable values; converted to `fdt` in build()
+        desc["freq_dtype"] = fdt
         stype = STYPES[ch.draw(6, "stype")]
         ic = ICS[ch.draw(4, "ic")]
         peak = PEAKS[ch.weighted([4, 1, 1, 1, 1, 1, 1], "peak")]
@@ -172,7 +179,7 @@ def gen_case(ch):
                 a = np.ascontiguousarray(a.T).T
             if one_d:
                 a = a[:, 0]
-            f = freq.copy()
+            f = freq.astype(fdt)
             if ffmt == 1:
                 f = f.tolist()
             elif ffmt == 2 and lf == 1:
@@ -214,6 +221,13 @@ def gen_case(ch):
         freq = np.sort(freq)
     if lf > 1 and ch.flip(1, 8, "frep"):
         freq[ch.draw(lf, "frep_to")] = freq[ch.draw(lf, "frep_from")]
+    # (no float16 here: fdepsd puts the frequencies in a pandas index, which refuses float16)
+    fdt = ["float64", "float32", "int64", "float32"][ch.weighted([12, 2, 1, 1], "freq_dtype")]
+    if fdt == "int64":
+        freq = np.maximum(np.round(freq), 1.0)
+    if fdt != "float64":
+        freq = freq.astype(fdt).astype(float)
+    desc["freq_dtype"] = fdt
     nbins = [5, 1, 2, 3, 10, 30, 300][ch.weighted([6, 1, 2, 3, 0, 0, 0] if manyf else [6, 1, 2, 3, 4, 2, 1], "nbins")]
     resp = ["absacce", "pvelo"][ch.draw(2, "resp")]
     q = QS[ch.draw(len(QS), "Q")]
@@ -238,7 +252,7 @@ def gen_case(ch):
             resp=resp, detrend=detrend, winends=we, hpfilter=hp, nbins=nbins, T0=t0, rolloff=roll, ppc=ppc,
             maxcpu=maxcpu, verbose=verbose,
         )
-        return (base.copy(), sr, freq.copy(), q), kw
+        return (base.copy(), sr, freq.astype(fdt), q), kw
 
     desc.update(
         n=n, sigkind=kind, dtype=str(base.dtype), sr=sr, freq=[float(x) for x in freq], Q=q, resp=resp, nbins=nbins, T0=t0,
